@@ -11,6 +11,10 @@ analysis replaced by a table.  One place `x` (a single leaf) is followed through
                         each successor or not} x {live before the block / assigned in the block} x {needed at the function's exit or not}:
                         rejected iff  not droppable and not used and not live before EVERY successor and (live here or assigned here)
 
+  rebound name          b: `consume(x); x = <new value>` with x a non-droppable value live before b;  {new value droppable or not} x {used in b or not} x
+                        {live before the successor or not}:  rejected iff the NEW value is not droppable, not used and not live later -- the consumed
+                        old value is never reported
+
 and in every accepted case the function returns normally (a checked CFG is built).
 """
 
@@ -76,9 +80,9 @@ def run(ctx: Ctx) -> bool:
         except Raised as e:
             return ("raise", e.cls or str(e))
 
-    def place(copyable, droppable):
+    def place(copyable, droppable, name="x_place"):
         ty = Tok("ty", copyable=copyable, droppable=droppable, __ident__=1)
-        return Tok("x_place", id="x", name="x", ty=ty, defined_at=Tok("def_x"), flags=set(), __ident__=1)
+        return Tok(name, id="x", name="x", ty=ty, defined_at=Tok("def_x"), flags=set(), __ident__=1)
 
     decided = True
     # ---------------------------------------------------------------- used and still live
@@ -168,6 +172,43 @@ def run(ctx: Ctx) -> bool:
                                     "needed_at_the_function_exit": at_exit, "outcome": res[1] if res[0] == "raise" else "accepted", "should_be": "rejected (leaked)" if want else "accepted"})
         ctx.check(not bad, "R-C06.2", key, f.where, {"rows": n, "counterexamples": bad[:4], "n_counterexamples": len(bad)},
                   "a non-droppable value (qubit) that is neither used in a block nor needed by all successors is silently discarded on some path")
+    except Unsupported as e:
+        ctx.undecided("R-C06.2", key, f.where, str(e))
+        decided = False
+    # ---------------------------------------------------------------- a consumed value's name is bound again in the same block
+    key = f"{f.qualname}#rebound-name-judged-by-its-own-use"
+    bad = []
+    n = 0
+    try:
+        for new_droppable, new_used, new_live in itertools.product((False, True), repeat=3):
+            # entry -> b -> succ -> exit;  b:  consume(x); x = <new value>   (x: a qubit that is live before b)
+            n += 1
+            old = place(False, False)
+            new = place(False, new_droppable, "new_x_place")
+            new.attrs["defined_at"] = Tok("def_new_x")
+            ex = block("exit")
+            succ = block("succ", [ex])
+            b = block("b", [succ])
+            entry = block("entry", [b])
+            use_old = Tok("use_old", node=Tok("consume_node"), kind="UseKind.MOVE")
+            use_new = Tok("use_new", node=Tok("use_new_node"), kind="UseKind.MOVE")
+            sb = mk_scope("scope_b", {"x": new}, parent=mk_scope("inputs_of_b", {"x": old}, used_local={"x": use_old}), used_local={"x": use_new} if new_used else {}, used_parent={"x": use_old})
+            lives = new_live and not new_used
+            scopes = {entry: mk_scope("scope_entry", {"x": old}), b: sb, ex: mk_scope("scope_exit", {}),
+                      succ: mk_scope("scope_succ", {}, parent=mk_scope("inputs_of_succ", {"x": new}, used_local={"x": use_new}), used_parent={"x": use_new})}
+            live_before = {entry: {}, b: {"x": b}, succ: {"x": succ} if lives else {}, ex: {}}
+            blocks = [entry, b, succ, ex]
+            cfg = Tok("cfg", bbs=blocks, entry_bb=entry, exit_bb=ex, input_tys=[], output_ty=Tok("none"), live_before={k: {} for k in blocks},
+                      ass_before={k: set() for k in blocks}, maybe_ass_before={k: set() for k in blocks}, __ident__=1)
+            res = interpret(cfg, scopes, live_before)
+            want = (not new_droppable) and (not new_used) and (not lives)
+            if (res[0] == "raise") != want or (want and "GuppyError" not in res[1]):
+                bad.append({"block": "consume(x); x = <new value>   (x: non-droppable, live before the block)", "new_value_droppable": new_droppable, "new_value_used_in_the_block": new_used,
+                            "new_value_live_before_the_successor": lives, "outcome": res[1] if res[0] == "raise" else "accepted",
+                            "should_be": "rejected (the new value is leaked)" if want else "accepted (the old value was consumed exactly once, the new one may be dropped / is used)"})
+        ctx.check(not bad, "R-C06.2", key, f.where, {"rows": n, "counterexamples": bad[:4], "n_counterexamples": len(bad)},
+                  "after `q = measure(q)` in a branch the consumed qubit is judged by the use record of the NEW value bound to its name: "
+                  "a program that consumes the qubit exactly once on every path is rejected as leaking it")
     except Unsupported as e:
         ctx.undecided("R-C06.2", key, f.where, str(e))
         decided = False
